@@ -532,10 +532,11 @@ def prism_equations(cp, r):
     try:
         for face, normal in zip(cp.faces, cp.normals):
             base = cp.vertices[face]
+            inner = base - r * normal
             ext = base + r * normal
             with warnings.catch_warnings():
                 warnings.simplefilter("ignore")
-                out.append(_f(coxeter.shapes.ConvexPolyhedron([*base, *ext])._equations))
+                out.append(_f(coxeter.shapes.ConvexPolyhedron([*inner, *ext])._equations))
         return out, None
     except Exception as e:  # noqa: BLE001
         return None, exc_kind(e)
@@ -592,7 +593,7 @@ def eval_sphero(ctx, case, sp, cp, v, hull, smax, P0, labels0, size, r, rng):
     else:
         args += [I(0), L([L([e for e in pe]) for pe in prisms])]
         for pe, f, nrm in zip(prisms, faces, cp.normals):
-            contract_planes(ctx, "Qhull(extruded face)", pe, np.vstack([f, f + r * nrm]), size + r)
+            contract_planes(ctx, "Qhull(extruded face)", pe, np.vstack([f - r * nrm, f + r * nrm]), size + r)
     args.append(L(list(P)))
     try:
         out = ctx.driver.F("in3.sphero", *args)
